@@ -7,6 +7,21 @@ HERE = os.path.dirname(os.path.dirname(os.path.abspath(__file__)))
 
 # id -> (category, technique, level text, level note, design ref)
 CHECKS = {
+    "C05": (
+        "model_checking",
+        "complete enumeration of wildcard masks per shape class against a bit-level oracle, plus "
+        "explicit-state exploration of every operation history (line/limit assignments, refused "
+        "assignments, queries) up to a depth on one real object with a fresh-object differential oracle",
+        "Every mask with <=3 stray bits for every run length, two complete 12-bit windows, all 33 "
+        "contiguous masks through every constructor and view, every limit 0..30 at k=limit-1/limit/"
+        "limit+1: exact set equality with the bit-definition of the cube, no address enumeration. "
+        "Staleness is a history property: all operation sequences of depth 4 (quick) / 5 (thorough) "
+        "over 14 Wildcard operations and depth 3/4 over 17 Address/AddressAg operations are executed "
+        "without state merging; after every step the derived values must equal a fresh object's.",
+        "Trusted: cube->prefix definition in vf/refsem/sets.py (self-tested against brute force), "
+        "ipaddress. Masks with more than 3 stray bits outside the two 12-bit windows are not enumerated.",
+        "DESIGN.md 4/C05",
+    ),
     "C09": (
         "exploration",
         "complete enumeration of the finite domain (every table row, every number 1..65535 x "
